@@ -1,6 +1,6 @@
 (* Properties_C16: statements only.  C16 -- WebSocket/HTTP codecs:
    segmentation-independent and rule-enforcing. *)
-From Coq Require Import List Arith NArith Bool.
+From Coq Require Import List Arith NArith Bool Lia.
 From NngV Require Import Gen.Consts Base.ListX Base.Bytes Codec.Staged Codec.WsFrameModel Codec.WsMsgModel
   Codec.ChunkedModel Codec.B64Model Codec.HttpLineModel Codec.CodecSpec
   Codec.WsProofs Codec.ChunkedProofs Codec.HttpProofs Codec.B64Proofs.
@@ -158,26 +158,44 @@ Proof. exact ws_no_delivery_after_halt. Qed.
 Print Assumptions ws_no_delivery_after_error.
 
 (* ---------------------------------------------------------------- (d) *)
-(* Full statement (not proved at the byte level): for every well-formed frame
-   sequence with control frames interleaved, ws_feed on the encoded bytes
-   delivers the concatenations of the data frames of each message.
-   Proved part: the same at the level of complete frames (the effect of
-   ws_read_frame_cb / ws_read_finish_msg on a first frame followed by
-   continuation frames with small ping/pong frames anywhere between them);
-   the step from bytes to complete frames is ws_frame_roundtrip (one frame)
-   and ws_segmentation_independent, not composed here. *)
-Theorem ws_reassembly_exact_partial : forall cfg p frs ps, c_isstream cfg = false -> msg_tail frs ps ->
-  let '(s1, e1) := ws_frames_run cfg ws_init ((WS_BINARY, false, p) :: frs) in
-  deliveries e1 = [p ++ concat ps] /\ w_inmsg s1 = false /\ w_rxq s1 = [].
-Proof. exact ws_message_reassembles. Qed.
-Print Assumptions ws_reassembly_exact_partial.
+(* A well-formed frame sequence [msg_seq]: any number of messages, each a single
+   final data frame or a first frame followed by continuation frames, with
+   ping/pong frames (<= 125 bytes) anywhere, also inside messages.  Its
+   encoding by the opposite role, cut into pieces in any way, makes the
+   decoder deliver exactly the concatenations of the data frames of each
+   message, and leaves it in its initial state.  [admitted_along]: every frame
+   passes the configured size limits (see ws_limits_unlimited below). *)
+Theorem ws_reassembly_exact : forall cfg frs ms keys,
+  c_isstream cfg = false -> msg_seq cfg frs ms -> frames_encodable keys frs -> admitted_along cfg ws_init frs ->
+  forall p rest, concat (p :: rest) = ws_encode_frames (negb (c_server cfg)) keys frs ->
+  let '(d, e) := ws_feed_all cfg ws_dinit (p :: rest) in deliveries e = ms /\ d = ws_dinit.
+Proof. exact ws_reassembly_bytes. Qed.
+Print Assumptions ws_reassembly_exact.
 
-(* Full statement (not proved): reassembling the encoded fragments gives the
-   message.  Proved part: for every fragsize > 0 the fragments carry exactly the
-   message bytes in order, the first has the data opcode and all others CONT,
-   exactly the last is final, none exceeds fragsize.  With
-   ws_reassembly_exact_partial this is the round trip at frame level. *)
-Theorem ws_fragmentation_roundtrip_partial : forall send_text fragsize data, 0 < fragsize ->
+(* the same at the level of complete frames (effect of ws_read_frame_cb / ws_read_finish_msg) *)
+Theorem ws_reassembly_frames : forall cfg, c_isstream cfg = false -> forall frs ms, msg_seq cfg frs ms ->
+  let '(s1, e1) := ws_frames_run cfg (mkWs SHead false []) frs in
+  deliveries e1 = ms /\ s1 = mkWs SHead false [].
+Proof. exact ws_sequence_reassembles. Qed.
+Print Assumptions ws_reassembly_frames.
+
+(* reassemble (fragment fs m) = m, through the bytes and the decoder of the
+   opposite role, for every fragment size (0 = no fragmentation) and every
+   way of cutting the byte stream *)
+Theorem ws_fragmentation_roundtrip : forall cfg send_text fragsize data keys,
+  c_isstream cfg = false -> (send_text = true -> c_recv_text cfg = true) ->
+  N.of_nat (length data) < 2 ^ 64 ->
+  let frs := ws_send_frames false send_text fragsize data in
+  (length frs <= length keys)%nat -> Forall (fun k => length k = 4%nat) keys ->
+  admitted_along cfg ws_init frs ->
+  forall p rest, concat (p :: rest) = ws_encode_frames (negb (c_server cfg)) keys frs ->
+  let '(d, e) := ws_feed_all cfg ws_dinit (p :: rest) in deliveries e = [data] /\ d = ws_dinit.
+Proof. exact ws_fragmentation_bytes. Qed.
+Print Assumptions ws_fragmentation_roundtrip.
+
+(* the shape of the fragments: first has the data opcode, the others CONT,
+   exactly the last is final, none exceeds fragsize, together they are the data *)
+Theorem ws_fragment_shape_holds : forall send_text fragsize data, 0 < fragsize ->
   let frs := ws_send_frames false send_text fragsize data in
   concat (map fr_payload frs) = data /\
   frs <> [] /\ fr_final (last frs (0, true, [])) = true /\
@@ -190,7 +208,13 @@ Proof.
   - apply ws_fragment_concat. auto.
   - exact (ws_fragment_shape send_text fragsize (S (length data)) 0 data (Nat.lt_succ_diag_r _) H).
 Qed.
-Print Assumptions ws_fragmentation_roundtrip_partial.
+Print Assumptions ws_fragment_shape_holds.
+
+(* without configured limits every frame the allocator can hold is admitted *)
+Theorem ws_limits_unlimited : forall cfg, c_maxframe cfg = 0 -> c_recvmax cfg = 0 -> forall frs s,
+  Forall (fun f => N.of_nat (length (fr_payload f)) <= c_allocmax cfg) frs -> admitted_along cfg s frs.
+Proof. exact admitted_unlimited. Qed.
+Print Assumptions ws_limits_unlimited.
 
 (* ---------------------------------------------------------------- (e) *)
 (* a hex digit multiplies the size by 16 and adds its value exactly when that
@@ -212,13 +236,19 @@ Proof. exact (conj ingest_len_digit (conj ingest_newline_limits chunks_loop_tota
 Print Assumptions chunked_value_and_limits.
 
 (* ---------------------------------------------------------------- (f) *)
-(* Full statement (not proved): wf_ws_frame (negb-role) (ws_encode ...) for the
-   independent grammar of CodecSpec, and wf_http_head of the emitted heads.
-   Proved part: what the encoder emits is accepted by the decoder model of the
-   opposite role (ws_frame_roundtrip) in minimal form with the right mask bit
-   (ws_encode_minimal); the grammar itself is evaluated on every byte nng
-   emits in the correspondence run (CodecSpec.wf_ws_stream_b, wf_http_head_b). *)
-Theorem emit_well_formed_partial : forall cfg s key op final payload,
+(* every frame the encoder emits -- any known opcode, control frames final and
+   at most 125 bytes (what ws_msg_init_control enforces), any payload below
+   2^63 bytes -- satisfies the independent grammar of RFC 6455 5.2 for a sender
+   of that role *)
+Theorem emit_well_formed : forall (server : bool) (key : list byte) (op : N) (final : bool) (payload : list byte),
+  ws_known_op op -> (8 <= op -> final = true /\ N.of_nat (length payload) <= 125) ->
+  N.of_nat (length payload) < 2 ^ 63 -> bytes_ok payload -> bytes_ok key -> length key = 4%nat ->
+  wf_ws_frame server (ws_encode server key op final payload).
+Proof. exact ws_encode_wf. Qed.
+Print Assumptions emit_well_formed.
+
+(* corollary: it is accepted by the decoder model of the opposite role *)
+Theorem emit_accepted_by_peer : forall cfg s key op final payload,
   w_stage s = SHead -> op < 128 -> length key = 4%nat -> N.of_nat (length payload) < 2 ^ 64 ->
   frame_admitted cfg s (N.of_nat (length payload)) ->
   fst (ws_feed cfg (mkD s []) (ws_encode (negb (c_server cfg)) key op final payload)) =
@@ -226,7 +256,9 @@ Theorem emit_well_formed_partial : forall cfg s key op final payload,
 Proof.
   intros. rewrite ws_feed_frame by assumption. destruct (ws_frame_cb cfg s op final payload). reflexivity.
 Qed.
-Print Assumptions emit_well_formed_partial.
+Print Assumptions emit_accepted_by_peer.
+(* The HTTP heads nng emits (http_snprintf) are not modelled; wf_http_head is
+   evaluated on every head observed in the correspondence run. *)
 
 (* ---------------------------------------------------------------- (g) *)
 (* a request line without two spaces, or with an unsupported version, yields
@@ -296,15 +328,18 @@ Proof. exact res_header_nocolon_rejected. Qed.
 Print Assumptions http_res_header_nocolon_rejected.
 
 (* ------------------------------------------------------------- base64 *)
-(* Full statement (not proved): decode (encode l) = l and encode l = the RFC 4648
-   encoding for byte strings of every length.  Proved part: all strings of
-   length <= 2 (the three padding cases), by exhaustive evaluation, plus the
-   RFC test vectors and the 20-byte case used for Sec-WebSocket-Accept. *)
-Theorem b64_roundtrip_partial : forall l, bytes_ok l -> (length l <= 2)%nat ->
-  b64_encode_all l = spec_b64_encode l /\ b64_decode_all (b64_encode_all l) = l /\
-  forallb (fun c => b64_alphabet c || (c =? 61)) (b64_encode_all l) = true.
-Proof. exact b64_short. Qed.
-Print Assumptions b64_roundtrip_partial.
+(* nni_base64_encode computes the RFC 4648 encoding and nni_base64_decode
+   inverts it, for byte strings of every length; only alphabet and pad
+   characters are emitted *)
+Theorem b64_roundtrip_holds : forall l, bytes_ok l ->
+  b64_encode_all l = spec_b64_encode l /\ b64_decode_all (b64_encode_all l) = l.
+Proof. exact b64_roundtrip. Qed.
+Print Assumptions b64_roundtrip_holds.
+
+Theorem b64_alphabet_only : forall l, bytes_ok l ->
+  forallb (fun c => b64_alphabet c || (c =? 61)) (spec_b64_encode l) = true.
+Proof. exact spec_alphabet. Qed.
+Print Assumptions b64_alphabet_only.
 
 (* ------------------------------------------------------------- consts *)
 (* the literals of the models are those of the current source *)
@@ -357,8 +392,23 @@ Example frame_roundtrip_nonvacuous :
 Proof. split; [repeat split|]; vm_compute; reflexivity. Qed.
 
 Example reassembly_nonvacuous :
-  msg_tail [(WS_PING, true, [1]); (WS_CONT, false, [2]); (WS_PONG, true, []); (WS_CONT, true, [3])] [[2]; [3]].
-Proof. apply MT_ctl; [reflexivity|]. apply MT_cont. apply MT_ctl; [reflexivity|]. apply MT_last. Qed.
+  let cfg := mkCfg true false 0 0 false (2 ^ 40) in
+  let frs := [(WS_BINARY, false, [1]); (WS_PING, true, [9]); (WS_CONT, false, [2]); (WS_PONG, true, []);
+              (WS_CONT, true, [3]); (WS_BINARY, true, [4; 5])] in
+  msg_seq cfg frs [[1; 2; 3]; [4; 5]] /\ frames_encodable (repeat [7; 7; 7; 7] 6) frs /\
+  admitted_along cfg ws_init frs /\
+  deliveries (snd (ws_feed cfg ws_dinit (ws_encode_frames false (repeat [7; 7; 7; 7] 6) frs))) = [[1; 2; 3]; [4; 5]].
+Proof.
+  cbv zeta. split; [|split; [|split]].
+  - apply (MS_frag _ WS_BINARY [1] [(WS_PING, true, [9]); (WS_CONT, false, [2]); (WS_PONG, true, []); (WS_CONT, true, [3])]
+             [[2]; [3]] [(WS_BINARY, true, [4; 5])] [[4; 5]]).
+    + left; reflexivity.
+    + apply MT_ctl; [reflexivity|]. apply MT_cont. apply MT_ctl; [reflexivity|]. apply MT_last.
+    + apply MS_single; [left; reflexivity|apply MS_nil].
+  - split; [|split; [cbn; lia|repeat constructor]]. repeat constructor; cbn; lia.
+  - apply admitted_unlimited; try reflexivity. repeat constructor; cbn; lia.
+  - vm_compute. reflexivity.
+Qed.
 
 Example chunk_feed_nonvacuous :
   snd (chunk_feed (cfeed_init 0 (2 ^ 40)) [52; 13; 10; 119; 105; 107; 105; 13; 10; 48; 13; 10; 13; 10]) =
